@@ -44,6 +44,20 @@ Theorem C11_key_injective :
 Proof. exact key_injective. Qed.
 Print Assumptions C11_key_injective.
 
+(* The membership may grow while the cache lives (RuntimeConfig.AddReplica after NewAuthority):
+   the scheme of each epoch accepts whatever the previous one accepted.  The cached replica still
+   returns exactly the uncached results, in every epoch, although it never forgets an entry on
+   reconfiguration; in particular a signature rejected while its signer was unknown is accepted
+   as soon as the uncached scheme accepts it. *)
+Theorem C11_cache_transparent_growing :
+  forall (sha : bytes -> bytes),
+    (forall a b, sha a = sha b -> a = b) -> (forall a, length (sha a) = 32%nat) ->
+  forall (cp : nat) (es : list (scheme * list op)), (1 <= cp)%nat ->
+    Forall epoch_ok es -> growing (map fst es) ->
+    run_epochs (fixed_kd sha) (empty cp) es = run_plain_epochs es.
+Proof. exact cache_transparent_growing. Qed.
+Print Assumptions C11_cache_transparent_growing.
+
 (* Eviction never turns a valid signature invalid: the results do not depend on which of the
    remembered entries are still present. *)
 Theorem C11_evict_harmless :
@@ -176,3 +190,27 @@ Example C11_concrete_batches :
   run_plain no_Vv Vb no_Vc ops = [OutV VAccept; OutV VReject; OutV VReject; OutV VAccept] /\
   outs (run_cached no_Vv Vb no_Vc (legacy_kd sha_toy) (empty 4) ops) = [OutV VAccept; OutV VAccept; OutV VAccept; OutV VAccept].
 Proof. cbv zeta. repeat split; vm_compute; reflexivity. Qed.
+
+(* two epochs: signer set {3,4} is unknown in the first and known in the second.  The relabelled
+   signature is rejected, then accepted (computed, then answered from memory), also at capacity 1. *)
+Example C11_concrete_growth :
+  let S1 := {| sv := toy_Vv w_sig12 w_msg; sb := no_Vb; sc := no_Vc |} in
+  let S2 := {| sv := fun s m => if (qsig_eqb s w_sig12 || qsig_eqb s w_sig34) && bytes_eqb m w_msg then VAccept else VReject;
+               sb := no_Vb; sc := no_Vc |} in
+  let es := [(S1, [OVerify w_sig12 w_msg; OVerify w_sig34 w_msg; OVerify w_sig34 w_msg]);
+             (S2, [OVerify w_sig34 w_msg; OVerify w_sig34 w_msg; OVerify w_sig12 w_msg])] in
+  run_epochs (fixed_kd sha_toy) (empty 1) es =
+    [OutV VAccept; OutV VReject; OutV VReject; OutV VAccept; OutV VAccept; OutV VAccept] /\
+  run_plain_epochs es = [OutV VAccept; OutV VReject; OutV VReject; OutV VAccept; OutV VAccept; OutV VAccept].
+Proof. cbv zeta. split; vm_compute; reflexivity. Qed.
+
+(* the premise [growing] is needed: if a reconfiguration makes the scheme reject what it accepted
+   (a replica's key replaced), the cache, which is not flushed, keeps accepting.  Replacing keys is
+   outside the property's quantifier (request sequences over one membership that only grows). *)
+Example C11_shrinking_not_covered :
+  let S1 := {| sv := toy_Vv w_sig12 w_msg; sb := no_Vb; sc := no_Vc |} in
+  let S2 := {| sv := no_Vv; sb := no_Vb; sc := no_Vc |} in
+  let es := [(S1, [OVerify w_sig12 w_msg]); (S2, [OVerify w_sig12 w_msg])] in
+  run_epochs (fixed_kd sha_toy) (empty 1) es = [OutV VAccept; OutV VAccept] /\
+  run_plain_epochs es = [OutV VAccept; OutV VReject].
+Proof. cbv zeta. split; vm_compute; reflexivity. Qed.
